@@ -52,19 +52,45 @@ func SpecEqualFold(a, b string) bool { panic("abstract spec function") }
 // The fixed keys (e.g. the destination of Z*STORE) are reported whatever the count says, followed
 // by the counted keys starting at the first key position.
 //@ func parseCommandInt
-//@   arith int
-//@   properties C18 C10
+//@   arith bv
+//@   nopanic
+//@   properties C18 C10 C12
 //@   modifies nothing
+//@   ensures a_count_is_never_negative_except_the_refusal: result >= 0 - 1
 //@   loop 1:
-//@     invariant scanning: 0 <= i
+//@     invariant scanning: 0 <= i && v >= 0
 
+// The key table never takes the replay down (C12: a decoded command is handed on, not lost in a
+// panic): machine arithmetic, every allocation size and index in range, whatever count the stream names.
 //@ func numkeysStepExtractor$1
-//@   arith int
-//@   properties C18 C10
+//@   arith bv
+//@   nopanic
+//@   properties C18 C10 C12
+//@   replay syncer_keyspecPanics@syncer
+//@   assume table_entries_are_short_and_commands_bounded: len(fixedKeys) <= 16 && len(args) <= 1073741824
 //@   modifies nothing
 //@   ensures every_fixed_key_is_reported: result != nil ==> len(result) > len(fixedKeys) && (forall i int :: 0 <= i && i < len(fixedKeys) ==> result[i] == fixedKeys[i])
 //@   ensures the_counted_keys_start_at_the_first_key_position: result != nil ==> result[len(fixedKeys)] == firstKeyIdx
 //@   loop 1:
 //@     invariant fixed_so_far: 0 - 1 <= rangeindex && rangeindex < len(fixedKeys) && len(keys) == rangeindex + 1 && fresh(keys) && (forall i int :: 0 <= i && i <= rangeindex ==> keys[i] == fixedKeys[i])
+//@     invariant counted_keys_lie_inside_the_arguments: keyStep > 0 && numkeys >= 1 && 0 <= firstKeyIdx && firstKeyIdx < len(args) && numkeys - 1 <= (len(args) - 1 - firstKeyIdx) / keyStep
 //@   loop 2:
-//@     invariant fixed_then_counted: fresh(keys) && len(keys) >= len(fixedKeys) && (forall i int :: 0 <= i && i < len(fixedKeys) ==> keys[i] == fixedKeys[i]) && idx#2 >= firstKeyIdx && (len(keys) == len(fixedKeys) <==> idx#2 == firstKeyIdx) && (len(keys) > len(fixedKeys) ==> keys[len(fixedKeys)] == firstKeyIdx) && keyStep > 0
+//@     invariant fixed_then_counted: fresh(keys) && 0 <= k && k <= numkeys && len(keys) == len(fixedKeys) + k && (forall i int :: 0 <= i && i < len(fixedKeys) ==> keys[i] == fixedKeys[i]) && (k > 0 ==> keys[len(fixedKeys)] == firstKeyIdx)
+//@     invariant counted_keys_lie_inside_the_arguments: keyStep > 0 && numkeys >= 1 && 0 <= firstKeyIdx && firstKeyIdx < len(args) && numkeys - 1 <= (len(args) - 1 - firstKeyIdx) / keyStep
+
+// CommandKeyIndexes over the position table (first / last / step): no allocation size or index out of
+// range for any number of arguments, and every reported position is an argument.
+// The table's entries are small constants (by reading commandKeyPositions: |first|, |last|, step <= 8).
+//@ axiom key_position_table_entries_are_small: forall c string :: haskey(commandKeyPositions, c) ==> 0 - 8 <= commandKeyPositions[c].first && commandKeyPositions[c].first <= 8 && 0 - 8 <= commandKeyPositions[c].last && commandKeyPositions[c].last <= 8 && 0 - 8 <= commandKeyPositions[c].step && commandKeyPositions[c].step <= 8
+//@ func CommandKeyIndexes
+//@   arith bv
+//@   nopanic
+//@   properties C12 C18
+//@   replay syncer_keyspecPanics@syncer
+//@   assume commands_bounded: len(args) <= 1073741824
+//@   modifies heap
+//@   ensures every_reported_position_is_an_argument [local]: result1 && !ok#1 ==> (forall i int :: 0 <= i && i < len(result0) ==> 0 <= result0[i] && result0[i] < len(args))
+//@   loop 1:
+//@     invariant copying: 0 - 1 <= rangeindex && rangeindex < len(args) && len(strArgs) == rangeindex + 1 && fresh(strArgs)
+//@   loop 2:
+//@     invariant positions_so_far: fresh(indexes) && 0 <= firstkey && firstkey <= lastkey + cmdPos.step && 0 <= lastkey && lastkey < len(args) && cmdPos.step > 0 && cmdPos.step <= 8 && (forall i int :: 0 <= i && i < len(indexes) ==> 0 <= indexes[i] && indexes[i] < len(args))
